@@ -81,3 +81,18 @@ Theorem C07_sig_assign_variance : forall le le_ret e a,
   exists obs, sca e a = Some obs /\ forall t m, In (t, m) obs -> le t m = true.
 Proof. exact sig_assign_variance. Qed.
 Print Assumptions C07_sig_assign_variance.
+
+(* positional capacity: unless the accepted callable takes *args, it has at least as many
+   positional parameters as the expected signature (so no call bound by e passes too many) *)
+Theorem C07_accept_positional_capacity : forall e a,
+  valid_sig e = true -> kinds_ok e a = true ->
+  has_kind VP a = true \/ (length (pos_params e) <= length (pos_params a))%nat.
+Proof. exact accept_positional_capacity_valid. Qed.
+Print Assumptions C07_accept_positional_capacity.
+
+(* keyword capacity: unless the accepted callable takes **kwargs, every keyword that
+   names a parameter of the expected signature names a parameter of the accepted one *)
+Theorem C07_accept_keyword_capacity : forall e a, kinds_ok e a = true ->
+  has_kind VK a = true \/ forall k, kw_target e k = true -> kw_target a k = true.
+Proof. exact accept_keyword_capacity. Qed.
+Print Assumptions C07_accept_keyword_capacity.
